@@ -19,14 +19,18 @@ const clientPreface = "PRI * HTTP/2.0\r\n\r\nSM\r\n\r\n"
 
 // reqRuntime is the state shared between the app side of one request and the peer.
 type reqRuntime struct {
-	consumed  atomic.Int64 // response body bytes the app has read so far
-	appDone   atomic.Bool  // app finished with the response (read to the end / closed / failed)
-	release   chan struct{}
-	relOnce   sync.Once
-	gate      chan struct{} // closed by the peer script (action start-req) for gated requests
-	gateOnce  sync.Once
-	errStr    atomic.Value // string
-	gotHeader atomic.Bool
+	consumed   atomic.Int64 // response body bytes the app has read so far
+	appDone    atomic.Bool  // app finished with the response (read to the end / closed / failed)
+	release    chan struct{}
+	relOnce    sync.Once
+	gate       chan struct{} // closed by the peer script (action start-req) for gated requests
+	gateOnce   sync.Once
+	closeAsked chan struct{} // closed when the request body's Close is called
+	closeOnce  sync.Once
+	done       chan struct{} // closed when the app side of the request has returned
+	doneOnce   sync.Once
+	errStr     atomic.Value // string
+	gotHeader  atomic.Bool
 }
 
 func (rt *reqRuntime) releaseRead() { rt.relOnce.Do(func() { close(rt.release) }) }
